@@ -285,6 +285,61 @@ func verifyInput(tx *btc.Tx, spent []*btc.TxOut, i int, flags uint32) (ok bool) 
 	return script.VerifyTxScript(spent[i].Pk_script, &script.SigChecker{Tx: tx, Idx: i, Amount: spent[i].Value}, flags)
 }
 
+// tieDigests: "digest signed = digest verified" on the real code. The three digests that the Lean side computes from the
+// SKELETON of the transaction alone (c02Crypto of Spec/WalletTxDigest.lean = C02's model functions on a transaction with
+// empty scriptSigs, no witness and an empty hash cache — the instance `signatures_verify` is stated for) must be the
+// digests the real Tx.SignatureHash / Tx.WitnessSigHash / Tx.TaprootSigHash hand out for input i of the SIGNED
+// transaction (all scriptSigs and witnesses in place, hash cache filled by the verification that ran before).
+func tieDigests(tx *btc.Tx, spent []*btc.TxOut, i int, o *vlib.Oracle, v *verdict) {
+	var real [3]string
+	call := func(k int, f func() []byte) {
+		defer func() {
+			if e := recover(); e != nil {
+				real[k] = "panic"
+			}
+		}()
+		if d := f(); len(d) == 0 {
+			real[k] = "-"
+		} else {
+			real[k] = hx(d)
+		}
+	}
+	if tx.TxVerVars == nil {
+		tx.AllocVerVars()
+	}
+	tx.Spent_outputs = spent
+	sc := spent[i].Pk_script
+	call(0, func() []byte { return tx.SignatureHash(sc, i, 1) })
+	call(1, func() []byte { return tx.WitnessSigHash(sc, spent[i].Value, i, 1) })
+	call(2, func() []byte { return tx.TaprootSigHash(&btc.ScriptExecutionData{}, i, 0, false) })
+	var ins, outs, sp []string
+	for _, in := range tx.TxIn {
+		// the scriptSig is NOT sent: the model side sees the skeleton only
+		ins = append(ins, fmt.Sprintf("%s:%d:-:%d", hx(in.Input.Hash[:]), in.Input.Vout, in.Sequence))
+	}
+	for _, out := range tx.TxOut {
+		outs = append(outs, fmt.Sprintf("%d:%s", out.Value, hx(out.Pk_script)))
+	}
+	for _, s := range spent {
+		sp = append(sp, fmt.Sprintf("%d:%s", s.Value, hx(s.Pk_script)))
+	}
+	lst := func(l []string) string {
+		if len(l) == 0 {
+			return "_"
+		}
+		return strings.Join(l, ",")
+	}
+	line := fmt.Sprintf("dig %d %d %s %s %s %d %s %d", tx.Version, tx.Lock_time, lst(ins), lst(outs), lst(sp), i, hx(sc), spent[i].Value)
+	model := o.MustAsk(line)
+	want := "ok " + real[0] + " " + real[1] + " " + real[2]
+	if model != want {
+		v.tf("digest-from-skeleton", "input %d: digests of the SIGNED transaction on the real code %q, computed from the skeleton by the model %q (legacy, BIP143, BIP341 key path)", i, want, model)
+	} else {
+		v.hit("digest-tie:" + scriptKind(sc))
+		r.TieOK()
+	}
+}
+
 func stdMsgScript(msg string) []byte {
 	b := []byte{0x6a}
 	n := len(msg)
@@ -648,6 +703,7 @@ func runSendCase(c *Case, o *vlib.Oracle, v *verdict) {
 			} else {
 				v.hit("verified:" + scriptKind(spent[i].Pk_script))
 			}
+			tieDigests(tx, spent, i, o, v)
 			if c.W.Minsig {
 				if tx.SegWit != nil && len(tx.SegWit[i]) == 2 && len(tx.SegWit[i][0]) > 71 {
 					v.pf("minsig", "minsig set but witness signature of input %d has %d bytes", i, len(tx.SegWit[i][0]))
@@ -849,6 +905,7 @@ func runRawCase(c *Case, o *vlib.Oracle, v *verdict) {
 			} else {
 				v.hit("verified:" + scriptKind(spent[i].Pk_script))
 			}
+			tieDigests(tx, spent, i, o, v)
 		} else {
 			allOwned = false
 			v.hit("raw-input:foreign-" + scriptKind(spent[i].Pk_script))
@@ -961,7 +1018,8 @@ func main() {
 	}
 	r.Assume = []string{
 		"signature validity is observed on the real output by script.VerifyTxScript (real interpreter); in Lean it is the theorem signatures_verify against the REAL script rules ScriptSpec.verifyScript (the reference semantics C01's script_equiv ties VerifyTxScript to), for every flag set with Core's flag dependencies and every oracle instance whose ecdsaVerify / schnorrVerify are C03's models; the sign=>verify facts are imported from C03 (own_signature_accepted, sign_canonical, schnorr_sign_verifies, generator_order), not assumed",
-		"remaining hypotheses of signatures_verify: hcalls (the signing calls succeed with R != 0 - inherited from C03), dig_* (the verifier's digest of the signed transaction = the wallet's digest of the unsigned skeleton: C02's statement, still a named hypothesis - OPEN digests_read_skeleton_only), no_clash (signature bytes||01 are not the 20-byte key hash: FindAndDelete), nonzero (no key hash / x-only key is all-zero = false as a stack element), hash_same / hash_len, no_cross, haddr, hss",
+		"remaining hypotheses of signatures_verify: hcalls (the signing calls succeed with R != 0 - inherited from C03), no_clash (signature bytes||01 are not the 20-byte key hash: FindAndDelete), nonzero (no key hash / x-only key is all-zero = false as a stack element), hash_same / hash_len, no_cross, haddr, hss",
+		"digest signed = digest verified is PROVED (digests_read_skeleton_only: C02's models of SignatureHash / WitnessSigHash / TaprootSigHash read no scriptSig and no witness; the hash cache stays coherent), for the oracle whose digest requests are those model functions on the signed transaction (DigestsAreC02) - and observed here: the digests computed from the skeleton alone equal the real functions' results on the signed transaction, for every verified input",
 		"wallet keys are taken from the real wallet's own listing (-l -atype pks); key derivation is C14's subject",
 		"amounts and sums < 2^64 (beyond: StringToSatoshis / spendBtc wrap silently — DESIGN O4, observation only)",
 		".others raw-key files, litecoin mode, uncompressed keys, -prompt, scrypt and BIP39 password entry are not exercised",
